@@ -164,6 +164,21 @@ static void one_state(const struct hist *h, const struct opscope *sc, int with_o
             if (r.rc != 0 && r.err != EPERM && r.err != EINVAL && r.err != EBUSY) { char key[96]; snprintf(key, sizeof(key), "c19.adopted.errno@%s", where); mc_violation(key, "%s :: refused with errno %d", mc_case_text(), r.err); }
           }
         }
+        /* hwloc_distances_release_remove(): takes a handle, so it is not in the history alphabet; every structure in turn */
+        {
+          unsigned nr = 8; struct hwloc_distances_s *ds[8];
+          if (hwloc_distances_get(a, &nr, ds, 0, 0) == 0) {
+            if (nr > 8) nr = 8;
+            for (unsigned q = 0; q < nr; q++) {
+              if (!mc_case("%s ; shmem(offset=%d pages) ; on-adopted distances_release_remove(#%u)", hist_text(h), OFFS[oi], q)) { hwloc_distances_release(a, ds[q]); continue; }
+              int rr = -9, ee = 0; MC.transitions++;
+              if (MC_TRY(30000)) { errno = 0; rr = hwloc_distances_release_remove(a, ds[q]); ee = errno; mc_try_end(); }
+              if (mc_report_faults("adopted-distances_release_remove")) continue;
+              if (rr == 0) mc_violation("c19.adopted.accepted@adopted-distances_release_remove", "%s :: the call succeeds on an adopted topology", mc_case_text());
+              else { if (ee != EPERM && ee != EINVAL) mc_violation("c19.adopted.errno@adopted-distances_release_remove", "%s :: refused with errno %d", mc_case_text(), ee); hwloc_distances_release(a, ds[q]); }
+            }
+          }
+        }
         free(ops);
         if (mirror) hwloc_topology_destroy(mirror);
         mc_case("%s ; shmem(offset=%d pages)", hist_text(h), OFFS[oi]);
